@@ -449,6 +449,27 @@ theorem inode_numbers_bijective (cs : List Tree) :
     (numsT (numberRoot cs).1).Perm (List.range' 1 (numberRoot cs).2) ∧ eraseT (numberRoot cs).1 = .dir cs :=
   ⟨numberRoot_perm cs, numberRoot_shape cs⟩
 
+/--
+`fstree_post_process` as a whole — `alloc_inode_num_dfs`, the root, `map_inodes_dfs`, then `reorder_hard_links`
+(which rotates the target of a hard link in front of the first directory that links it, renumbering everything in
+between) — for every tree with any hard links between its non-directory nodes: slot `k` of `fs->inodes`, the order
+in which the inodes are serialised, carries inode number `k + 1`; the slots hold exactly the nodes the DFS numbered,
+each once.  So also with hard links the inode numbers are exactly `1..N` for the `N` inodes the superblock announces,
+no number is used twice, and inodes appear in the inode table in the order of their numbers.
+
+Full statement not proved (`link_targets_before_linking_dirs`): *in the final order every directory comes after all
+its entries' inodes — its children (`children_before_parent` proves this for the DFS order) and the targets of its
+hard-link entries — so that every `inode_ref` a listing stores is known when the listing is written.*  Gap: an
+induction over `reorderGo` showing that a rotation never moves a directory and never moves anything behind a
+directory that was in front of it.  The validator checks the consequence (`entry-ref`, `entry-number`) on every image
+with hard links (tar2sqfs jobs, the `packdir` job) and `num` compares the model's final numbers with the real ones.
+-/
+theorem inode_numbers_dense_after_reorder_partial (cs : List Tree) :
+    (postProcess cs).map (·.num) = List.range' 1 (numberRoot cs).2 ∧
+    ((postProcess cs).map (·.id)).Perm (numsT (numberRoot cs).1) ∧
+    (numsT (numberRoot cs).1).Perm (List.range' 1 (numberRoot cs).2) :=
+  ⟨(postProcess_spec cs).1, (postProcess_spec cs).2, numberRoot_perm cs⟩
+
 /-- every directory's number is larger than every number inside its subtree (children are serialised, and their
 inode references known, before the parent's listing is written) -/
 theorem children_before_parent (cs : List Tree) : OrdT (numberRoot cs).1 :=
@@ -536,8 +557,13 @@ example : C03FsDir.addAll {} [[98], [97, 0xC3], [97], [98]] = ⟨[[97], [97, 0xC
 example : (writeTable toyCodec 100 [1, 2, 3, 4, 5]).locs = [100] ∧ (writeTable toyCodec 100 [1, 2, 3, 4, 5]).start = 106 := by
   decide
 
-example : Sqfs.Numbering.numberRoot [.file, .dir [.file, .hlink, .dir [.file]], .file] =
-    (.dir 7 [.file 4, .dir 5 [.file 2, .hlink, .dir 3 [.file 1]], .file 6], 7) := by rfl
+example : Sqfs.Numbering.numberRoot [.file, .dir [.file, .hlink 0, .dir [.file]], .file] =
+    (.dir 7 [.file 4, .dir 5 [.file 2, .hlink 0, .dir 3 [.file 1]], .file 6], 7) := by rfl
+
+/-- the DFS numbers the first directory 2 and the file it links 4: the file is rotated in front of the directory
+(slot order 1,4,2,3,5) and everything gets the number of its slot -/
+example : Sqfs.Numbering.postProcess [.dir [.hlink 1], .dir [.file], .file] =
+    [⟨1, 1⟩, ⟨4, 2⟩, ⟨2, 3⟩, ⟨3, 4⟩, ⟨5, 5⟩] := by decide
 
 /-- the layout of the first image of the design notes (gzip, 5 inodes, one fragment, one id) -/
 example : Sqfs.Finish.finish ⟨512455, 93, 55, some ⟨18, 1⟩, none, ⟨6, 1⟩, none, 4096⟩ =
